@@ -7,7 +7,7 @@ from __future__ import annotations
 
 import ast
 
-from tiv.astutil import body_walk, call_name, dotted, enclosing_stmt, guards, kw, norm, short, stores_in, try_context, walk_local, with_context
+from tiv.astutil import conds, body_walk, call_name, dotted, enclosing_stmt, guards, kw, norm, short, stores_in, try_context, walk_local, with_context
 from tiv.cfg import CFG, fmt_path
 from tiv.match import find_stmts, match_expr, match_stmt
 from tiv.mutate import M
@@ -76,7 +76,7 @@ def run(ck, m):
                     continue  # generators / iterators, not images
                 n1 += 1
                 if q.endswith("BaseImage._close_image"):
-                    gs = [norm(t) for t, b in guards(n) if b]
+                    gs = sorted(conds(n))
                     ck.ob("R1", enclosing_stmt(n), gs == ["img is not self._source"], f"_close_image must close only when `img is not self._source` (the caller's own PIL image is never closed); guards: {gs}", stmt="_close_image: img.close() iff img is not self._source")
                     continue
                 ok = isinstance(recv, ast.Name) and _fresh(fn, recv.id) and recv.id not in params
